@@ -3,11 +3,12 @@
 //	memfsconc replay <scenarios> <expect>   gated replays of the real memfs through the verifhook yield
 //	                                         points; <expect> is the model's output for the same file
 //	                                         (used only to choose how long to wait for each event)
-//	memfsconc gen <n> [<nsa> <nsib> [<n4assign> <n4perms>]]
+//	memfsconc gen <n> [<nsa> <nsib> [<n4assign> <n4perms> [<nwg>]]]
 //	                                         seeded generator of replay scenarios: n of the holder + random
 //	                                         families, nsa / nsib of the shared-ancestor / sibling families
 //	                                         (negative = the whole enumeration; n4assign / n4perms = how much of
-//	                                         the 4-thread part of the shared-ancestor family is enumerated)
+//	                                         the 4-thread part of the shared-ancestor family is enumerated;
+//	                                         nwg of the write-gap family, gen_wg.go)
 //	memfsconc stress <rounds> [chaos]        ungated stress, prints one history per round for the monitor
 //	memfsconc facts <repo>                   go/ast facts about the lock brackets in memfs
 //	memfsconc leanfacts <repo>               the synchronisation skeleton of every memfs function as Lean data
@@ -53,7 +54,11 @@ func main() {
 			n4assign, _ = strconv.Atoi(os.Args[5])
 			n4perms, _ = strconv.Atoi(os.Args[6])
 		}
-		genMain(out, n, nsa, nsib, n4assign, n4perms)
+		nwg := 0
+		if len(os.Args) > 7 {
+			nwg, _ = strconv.Atoi(os.Args[7])
+		}
+		genMain(out, n, nsa, nsib, n4assign, n4perms, nwg)
 	case "stress":
 		n := 10
 		if len(os.Args) > 2 {
